@@ -346,6 +346,8 @@ theorem room_fits (s : Pkg) (catalog key name : List Char) (n : Nat) (t : Table)
 theorem room_columns (s : Pkg) (name : List Char) (cols : List Column) (h : catalogRoom s name cols = .ok ()) :
     catalogRoomOne s Gen.nameColumns.toList "Table".toList name cols.length = .ok () := by
   unfold catalogRoom at h
+  split at h
+  · cases h
   cases h1 : catalogRoomOne s Gen.nameColumns.toList "Table".toList name cols.length with
   | ok u => cases u; rfl
   | err k => rw [h1] at h; cases h
